@@ -152,6 +152,15 @@ for _fl in ("create", ""):
         SPECIAL.append({"src": _EX % (_fl, _arg, _val), "exp": {T + "test_outer": _bad}, "name": "example-%s-%s-%s" % (_fl, _arg, _val)})
 
 
+# a test that runs a nested in-process session (pytester) after a wrong / empty comparison: the counters of the outer test
+# must survive whatever the inner session does with the session state (disabled, CI, active)
+_NEST = ("from inline_snapshot import snapshot\n\n\ndef test_outer(pytester, monkeypatch):\n    %s\n    pytester.makepyfile('def test_x():\\n    pass\\n')\n"
+         "    %s\n    r = pytester.runpytest(%s)\n    assert r.ret == 0\n")
+for _cmp, _bad in (("assert 5 == snapshot(4)", True), ("assert 5 == snapshot()", True), ("assert 5 in snapshot([4])", True), ("assert 5 == snapshot(5)", False)):
+    for _pre, _args in (("pass", "'--inline-snapshot=disable'"), ("monkeypatch.setenv('CI', 'true')", "'--inline-snapshot=fix'"), ("pass", "'--inline-snapshot=report'"), ("pass", "")):
+        SPECIAL.append({"src": _NEST % (_cmp, _pre, _args), "exp": {T + "test_outer": _bad}, "name": "nested-session", "conftest": "pytest_plugins = ['pytester']\n"})
+
+
 def source(prog):
     if "special" in prog:
         return SPECIAL[prog["special"]]["src"]
@@ -185,7 +194,10 @@ def run_case(case):
     src = source(prog)
     if cfg["flags"] == ["disable"] and "\ns = snapshot()\n" in src:
         return []  # an empty module-level snapshot() raises at import time when disabled: outside the property's scope
-    d = plugin.mk_project({"test_something.py": src, "pyproject.toml": ""})
+    files = {"test_something.py": src, "pyproject.toml": ""}
+    if "special" in prog and SPECIAL[prog["special"]].get("conftest"):
+        files["conftest.py"] = SPECIAL[prog["special"]]["conftest"]
+    d = plugin.mk_project(files)
     try:
         args = [] if cfg["flags"] is None else ["--inline-snapshot=" + ",".join(cfg["flags"])]
         stdin = None if cfg["stdin"] is None else (cfg["stdin"] + "\n").encode() * 12
